@@ -53,8 +53,8 @@ func VerifC15_AnyArgs() {
 				}
 			}
 		}
-		if hf == pathOpen && !verifrt.Thorough() && (i == 1 || i == 5 || i == 6 || i == 7) {
-			// quick tier: the flag words of path_open are decided for all values by C17's VerifC17_OpenFlags;
+		if hf == pathOpen && (i == 1 || i == 5 || i == 6 || i == 7) {
+			// the flag words of path_open are decided for all values by C17's VerifC17_OpenFlags;
 			// here lookup flags / rights / fdflags are fixed to keep the path count small
 			verifrt.Assume(v == 0)
 		}
